@@ -342,7 +342,7 @@ func runC17(c *Ctx) {
 						if fp != pc {
 							continue
 						}
-						arg := isDirOf(ucArgs[pi])
+						arg := isDirOf(resolveLocalField(ucArgs[pi]))
 						if ap, ok := arg.(*ssa.Parameter); ok && ap.Parent() == loop {
 							okOwn = true
 						} else {
